@@ -194,6 +194,32 @@ def pmap(fn, args, procs=None):
         return pool.map(_run_job, [(fn, a) for a in args], chunksize=1)
 
 
+def shape(s):
+    return (len(s), ''.join('9' if c in DIGITS else 'A' if c in UPPER else 'a' if c in LOWER else c for c in s))
+
+
+def diverse(numbers):
+    """the same numbers, one of every shape (length + character classes per position) first, then one more of
+    every length, then the rest in their order: caps like numbers[:100] must not cut away the rare shapes"""
+    seen, first, rest = set(), [], []
+    for n in numbers:
+        sh = shape(n)
+        if sh not in seen:
+            seen.add(sh)
+            first.append(n)
+        else:
+            rest.append(n)
+    if len(first) > 60:          # free-form formats: every number has its own shape; fall back to lengths
+        seen, first, rest = set(), [], []
+        for n in numbers:
+            if len(n) not in seen:
+                seen.add(len(n))
+                first.append(n)
+            else:
+                rest.append(n)
+    return first + rest
+
+
 def char_class(c):
     if c in DIGITS:
         return DIGITS
